@@ -172,7 +172,7 @@ def replay(pid, path):
 
 # ----------------------------------------------------------------------------- XtObs traces
 
-KNOWN_CLASSES = {"yaml_void", "json_adjacent_scalars", "json_dupkey_toml"}
+KNOWN_CLASSES = {"yaml_void", "json_adjacent_scalars", "json_dupkey_toml", "json_toml_datetime_marker"}
 
 
 def load_index(idx_path):
